@@ -164,6 +164,7 @@ type sxStore struct {
 	inner *MemoryEventStore
 	mu    sync.Mutex
 	fail  map[byte]bool
+	onClosed func(sessionID string) // (legacy / noids worlds) told of every SessionClosed call
 }
 
 var errSxStore = errors.New("verif: event store backend unavailable")
@@ -207,6 +208,9 @@ func (s *sxStore) After(ctx context.Context, sessionID, streamID string, index i
 }
 
 func (s *sxStore) SessionClosed(ctx context.Context, sessionID string) error {
+	if s.onClosed != nil {
+		s.onClosed(sessionID)
+	}
 	err := s.inner.SessionClosed(ctx, sessionID) // the store forgets the session all the same
 	if s.failing('c') {
 		return errSxStore
@@ -249,6 +253,7 @@ type sxWorld struct {
 	reqID   int
 	stateless bool
 	mode    string   // stateful | stateless | legacy (stateless under allowsessionsinstateless=1) | noids (stateful, GetSessionID returns "")
+	storeClosed []string // (legacy / noids worlds) session names the store's SessionClosed was called for since the last snapshot
 	restore func()   // undoes what the configuration changed outside the handler (the compatibility flag)
 	store   *sxStore // nil: no EventStore configured
 	inflight map[string]int          // session name -> request handlers entered and not yet returned
@@ -279,6 +284,14 @@ func newSxWorld(mode string, timeoutMS int, withStore bool, opts ...string) *sxW
 	}
 	if withStore {
 		w.store = &sxStore{inner: NewMemoryEventStore(nil), fail: map[byte]bool{}}
+		if mode == "legacy" || mode == "noids" {
+			w.store.onClosed = func(id string) {
+				nm := w.name(id)
+				w.mu.Lock()
+				w.storeClosed = append(w.storeClosed, nm)
+				w.mu.Unlock()
+			}
+		}
 	}
 	w.server = NewServer(&Implementation{Name: "verif", Version: "1"}, nil)
 	orig := w.server.opts.GetSessionID
@@ -609,7 +622,15 @@ func (w *sxWorld) snapshot() string {
 		}
 		return strings.Join(l, ";")
 	}
-	return "done:" + j(done) + " map:" + j(m) + " srv:" + j(srv) + " log:" + j(lg) + " stale:" + j(stale)
+	closed := ""
+	w.mu.Lock()
+	if len(w.storeClosed) > 0 {
+		sort.Strings(w.storeClosed)
+		closed = " closed:" + strings.Join(w.storeClosed, ";")
+		w.storeClosed = nil
+	}
+	w.mu.Unlock()
+	return "done:" + j(done) + " map:" + j(m) + " srv:" + j(srv) + " log:" + j(lg) + " stale:" + j(stale) + closed
 }
 
 func b2i(b bool) int {
@@ -816,7 +837,11 @@ func (w *sxWorld) apply(toks []string) (obs string) {
 			break
 		}
 		w.nasync++
-		a := &sxAsync{tag: fmt.Sprintf("c%d", w.nasync), rec: &sxRec{hdr: http.Header{}, status: 1}, done: make(chan struct{})}
+		ctag := fmt.Sprintf("c%d", w.nasync)
+		if w.mode == "legacy" || w.mode == "noids" {
+			ctag = "c0" // (these worlds' model keeps no request counter: server-side closes are not told apart)
+		}
+		a := &sxAsync{tag: ctag, rec: &sxRec{hdr: http.Header{}, status: 1}, done: make(chan struct{})}
 		go func() {
 			defer close(a.done)
 			if err := target.Close(); err != nil {
@@ -1527,8 +1552,9 @@ func sxRunCase(t *testing.T, out *verifOut, cs string, ops []string, gen *sxGen,
 // flag allowsessionsinstateless=1: ids are read, minted and echoed, DELETE is a no-op) or `noids` (stateful, GetSessionID
 // returns ""): every method with no id, ids the endpoint minted earlier (legacy), never-minted ids, by every identity;
 // POSTs whose handler stays blocked across later operations (several at once, also under one id), releases, ticks.
-func sxEphOps(rng *rand.Rand, mode string, n int) (ops []string, tags [][]string) {
+func sxEphOps(rng *rand.Rand, mode string, es bool, n int) (ops []string, tags [][]string) {
 	minted, nslow, unk := 0, 0, 0
+	parked := map[int]string{} // slot -> name of the temporary session believed to be parked there
 	add := func(op string, t ...string) { ops = append(ops, op); tags = append(tags, t) }
 	ref := func() (string, string) {
 		switch r := rng.Intn(100); {
@@ -1544,6 +1570,35 @@ func sxEphOps(rng *rand.Rand, mode string, n int) (ops []string, tags [][]string
 	}
 	for i := 0; i < n; i++ {
 		usr := sxUsers[rng.Intn(len(sxUsers))]
+		if es && rng.Intn(100) < 8 {
+			// SessionClosed fails / recovers: the temporary sessions must end all the same, the store told once each
+			f := []string{"c", "-", "c"}[rng.Intn(3)]
+			add("fault "+f, sxFaultTags(f)...)
+			continue
+		}
+		if mode == "legacy" && len(parked) > 0 && rng.Intn(100) < 9 {
+			// the server closes a parked temporary session itself (one that is alone under its id)
+			cnt := map[string]int{}
+			for _, nm := range parked {
+				cnt[nm]++
+			}
+			var alone []string
+			for nm, c := range cnt {
+				if c == 1 {
+					alone = append(alone, nm)
+				}
+			}
+			sort.Strings(alone)
+			if len(alone) > 0 {
+				add("close "+alone[rng.Intn(len(alone))], "srvclose", "eph-"+mode)
+				continue
+			}
+		}
+		if nslow > 0 && rng.Intn(100) < 7 {
+			// the client of a parked POST goes away
+			add(fmt.Sprintf("abandon %d", 1+rng.Intn(nslow)), "abandon", "eph-"+mode)
+			continue
+		}
 		rf, cls := ref()
 		switch r := rng.Intn(100); {
 		case r < 45:
@@ -1553,6 +1608,16 @@ func sxEphOps(rng *rand.Rand, mode string, n int) (ops []string, tags [][]string
 			}
 			if rf == "-" && mode == "legacy" {
 				minted++
+			}
+			if kind == "slow" && (mode == "legacy" || rf == "-") {
+				nm := rf
+				if rf == "-" {
+					nm = fmt.Sprintf("s%d", minted)
+					if mode == "noids" {
+						nm = "e"
+					}
+				}
+				parked[nslow] = nm
 			}
 			add(fmt.Sprintf("post %s %s %s", rf, usr, kind), "post-"+kind, cls, "eph-"+mode)
 		case r < 57:
@@ -1566,6 +1631,7 @@ func sxEphOps(rng *rand.Rand, mode string, n int) (ops []string, tags [][]string
 			if nslow > 0 {
 				k = 1 + rng.Intn(nslow+1)
 			}
+			delete(parked, k)
 			add(fmt.Sprintf("release %d", k), "release")
 		default:
 			add(fmt.Sprintf("tick %d", []int{1, 50, 100, 101}[rng.Intn(4)]), "tick-eph")
@@ -1579,7 +1645,7 @@ func sxRunTagged(t *testing.T, out *verifOut, cs string, reset string, ops []str
 	synctest.Test(t, func(t *testing.T) {
 		toks := strings.Fields(reset)
 		ms, _ := strconv.Atoi(toks[2])
-		w := newSxWorld(toks[1], ms, false, toks[3:]...)
+		w := newSxWorld(toks[1], ms, len(toks) > 3 && toks[3] == "es", toks[3:]...)
 		out.line(cs, reset, "ok", "reset")
 		for i, op := range ops {
 			obs := w.apply(strings.Fields(op))
@@ -1665,8 +1731,9 @@ func TestVerifSessions(t *testing.T) {
 	for c, ne := 0, verifN(240, 2400); c < ne; c++ {
 		rng := verifRng(int64(1_000_000 + c))
 		mode := []string{"legacy", "noids"}[c%2]
-		ops, tags := sxEphOps(rng, mode, 8+rng.Intn(20))
-		sxRunTagged(t, out, fmt.Sprintf("e%d", c), fmt.Sprintf("reset %s %d%s", mode, []int{0, 100}[rng.Intn(2)], []string{"", "", " nes json"}[rng.Intn(3)]), ops, tags)
+		opt := []string{"", " es", " es", " nes json", " es json"}[rng.Intn(5)]
+		ops, tags := sxEphOps(rng, mode, strings.HasPrefix(opt, " es"), 8+rng.Intn(20))
+		sxRunTagged(t, out, fmt.Sprintf("e%d", c), fmt.Sprintf("reset %s %d%s", mode, []int{0, 100}[rng.Intn(2)], opt), ops, tags)
 	}
 	// every short history on one session (exhaustive: depth 3 quick, depth 4 thorough)
 	depth := verifN(3, 4)
